@@ -133,6 +133,15 @@ struct Emitter {
         return T.getCanonicalType().getAsString(Ctx.getPrintingPolicy());
     }
 
+    static std::string recName(const RecordDecl *RD)
+    {
+        std::string n = RD->getNameAsString();
+        if (n.empty())
+            if (auto *TD = RD->getTypedefNameForAnonDecl())
+                n = TD->getNameAsString();
+        return n;
+    }
+
     std::string declId(const ValueDecl *D)
     {
         // A stable id inside the TU: name + declaration position for locals
@@ -300,7 +309,7 @@ struct Emitter {
                     }
                     if (auto *ME = dyn_cast<MemberExpr>(C)) {
                         if (auto *FD = dyn_cast<FieldDecl>(ME->getMemberDecl()))
-                            extra += ",\"slot\":[" + jstr(FD->getParent()->getNameAsString()) + "," + jstr(FD->getNameAsString()) + "]";
+                            extra += ",\"slot\":[" + jstr(recName(FD->getParent())) + "," + jstr(FD->getNameAsString()) + "]";
                     } else if (auto *DR = dyn_cast<DeclRefExpr>(C)) {
                         extra += ",\"fptr\":" + jstr(DR->getDecl()->getNameAsString());
                     }
@@ -330,7 +339,7 @@ struct Emitter {
                 kind = "Member";
                 extra += ",\"field\":" + jstr(ME->getMemberDecl()->getNameAsString());
                 if (auto *FD = dyn_cast<FieldDecl>(ME->getMemberDecl()))
-                    extra += ",\"rec\":" + jstr(FD->getParent()->getNameAsString());
+                    extra += ",\"rec\":" + jstr(recName(FD->getParent()));
                 extra += std::string(",\"arrow\":") + (ME->isArrow() ? "true" : "false");
                 addChild(ME->getBase());
             } else if (auto *AS = dyn_cast<ArraySubscriptExpr>(E)) {
